@@ -387,6 +387,32 @@ class _Inliner:
                     r = self.expand(SX.strip(e['args'][1]), h, stack)
                     if r is not None and r[1] is not None:
                         return r[0] + [dict(s, e=dict(e, args=[e['args'][0], r[1]]))]
+            if SX.is_node(e0) and e0.get('k') in ('call', 'mcall') and e0.get('args'):
+                # `v.push_back(makeNode(a, b));` — a helper call that is the only argument with effects: evaluated first, so it can be
+                # computed into a temporary in front of the statement
+                objpure = e0.get('k') != 'mcall' or pure(e0.get('obj'))
+                for i_, a_ in enumerate(e0['args']):
+                    a0 = SX.strip(a_)
+                    wrap = []
+                    while SX.is_node(a0) and (a0.get('k') == 'cast' or (a0.get('k') == 'call' and (a0.get('callee') or '').startswith('std::move') and len(a0.get('args', [])) == 1)
+                                              or (a0.get('k') == 'construct' and len(SX.real_args(a0)) == 1)):
+                        wrap.append(a0)
+                        a0 = SX.strip(a0['e'] if a0['k'] == 'cast' else SX.real_args(a0)[0])
+                    h = self.callee(a0, stack)
+                    if h is None or not objpure or not all(pure(x) for j_, x in enumerate(e0['args']) if j_ != i_):
+                        continue
+                    r = self.expand(a0, h, stack)
+                    if r is None or r[1] is None:
+                        continue
+                    self.serial += 1
+                    tid = '__arg@%d' % self.serial
+                    tdecl = {'k': 'decls', 'ln': s.get('ln'), 'd': [{'k': 'var', 'id': tid, 'name': '__arg@%d' % self.serial, 'type': a0.get('t') or h.ret or 'auto', 'init': r[1],
+                                                                    'ln': s.get('ln'), 'col': s.get('col')}]}
+                    ref = {'k': 'ref', 'kind': 'var', 'id': tid, 'name': '__arg@%d' % self.serial, 't': a0.get('t') or h.ret or 'auto', 'ln': s.get('ln')}
+                    nargs = list(e0['args'])
+                    nargs[i_] = ref
+                    ne0 = dict(e0, args=nargs)
+                    return r[0] + [tdecl, dict(s, e=ne0)]
             pre, ne = self.nested(s.get('e'), stack)
             return pre + [dict(s, e=ne)] if pre else [s]
         if k == 'return':
@@ -610,12 +636,31 @@ def _writes_of(s):
                 continue
             if n['k'] == 'construct' and (n.get('type') or '').startswith(('std::basic_string', 'std::string', 'std::complex', 'std::vector')):
                 continue
+            if n['k'] == 'mcall' and (n.get('callee') or '').startswith('std::') and (n.get('callee') or '').split('::')[-1] not in ('swap', 'getline', 'read', 'merge', 'splice', 'extract'):
+                continue      # standard container / string member functions take their arguments by value or const reference
             if n['k'] == 'opcall' and n.get('op') not in ('>>', '()'):
                 continue      # operator arguments are taken by value / const reference (the left operand is covered by write_target)
             if _PROG[0] is not None and n['k'] in ('call', 'mcall'):
                 ts = [t for t in _PROG[0].resolve(n)]
                 if ts and all(len(t.params) == len(SX.real_args(n)) for t in ts):
                     ptypes = [[(p_.get('type') or '').strip() for p_ in t.params] for t in ts]
+            if ptypes is None and n['k'] in ('call', 'mcall') and isinstance(n.get('sig'), str) and n['sig'].startswith('('):
+                # unresolved (library) callee: the parameter types recorded with the call
+                inner, depth_, cur_, parts_ = n['sig'][1:-1], 0, '', []
+                for ch in inner:
+                    if ch in '<(':
+                        depth_ += 1
+                    elif ch in '>)':
+                        depth_ -= 1
+                    if ch == ',' and depth_ == 0:
+                        parts_.append(cur_.strip())
+                        cur_ = ''
+                    else:
+                        cur_ += ch
+                if cur_.strip():
+                    parts_.append(cur_.strip())
+                if len(parts_) == len(SX.real_args(n)):
+                    ptypes = [parts_]
             for j_, a_ in enumerate(SX.real_args(n) if n['k'] in ('call', 'mcall') else (n.get('args') or [])):
                 a_ = SX.strip(a_)
                 if SX.is_node(a_) and a_.get('k') == 'ref' and a_.get('kind') in ('var', 'param') and not (a_.get('t') or '').startswith('const'):
